@@ -40,15 +40,15 @@ def run(ctx, col, tier):
     col.not_decided += ["numerical agreement of the values with the definitions (floating point)",
                         "the tie convention of the Sholl count at radii that coincide with a node",
                         "the branch-order convention; the direction of the tortuosity ratio (as documented)"]
-    dispatch(ctx, col)
-    returns(ctx, col)
-    sholl(ctx, col)
+    col.guard(dispatch, ctx, col)
+    col.guard(returns, ctx, col)
+    col.guard(sholl, ctx, col)
     geo, res = geosinks.check_sinks(ctx, col, "R-GEO", only=lambda q: ".volume" not in q and "volumetric" not in q)
     geosinks.report(col, "R-GEO", res)
     col.analysed["geo_summaries"] = len(geo.memo)
-    definitions(ctx, col)
-    c08.thresholds(ctx, col)
-    padding(ctx, col)
+    col.guard(definitions, ctx, col)
+    col.guard(c08.thresholds, ctx, col)
+    col.guard(padding, ctx, col)
 
 
 # --------------------------------------------------------------------------- dispatch
